@@ -175,6 +175,18 @@ func (h *HelloPingHandler) handlePingHelloRequest(w *mgr.WorkerCtx, f frame.Fram
 		return fmt.Errorf("unmarshal request: %w", err)
 	}
 
+	// Resolve simultaneous hello pings.
+	// If both routers start a key setup with each other at the same time, both
+	// would serve the other's request on their live session and then replace it
+	// with their own completed setup - and end up with different keys.
+	// The router with the lower address wins: While its own setup is pending, it
+	// ignores the request. The other router serves the request as usual; its own
+	// request will not be answered.
+	if ownPing := h.getActive(f.SrcIP()); ownPing != nil && !ownPing.done.Load() &&
+		h.r.instance.Identity().IP.Compare(f.SrcIP()) < 0 {
+		return nil
+	}
+
 	// Do key exchange.
 	session := h.r.instance.State().GetSession(f.SrcIP())
 	if session == nil {
